@@ -14,6 +14,21 @@ CFG = {
         "Leptos.View.C03_build_mount_attrvalues",
         "Leptos.View.C03_rebuild_eq_fresh_attrvalues",
         "Leptos.View.C03_rebuild_seq_attrvalues",
+        "Leptos.View.C03_build_mount_items",
+        "Leptos.View.C03_rebuild_eq_fresh_items",
+        "Leptos.View.C03_rebuild_seq_items",
+        "Leptos.View.C03_update_eq_fresh_items",
+        "Leptos.View.AttrsFresh_items",
+        "Leptos.View.AttrsRebuild_items",
+        "Leptos.View.pairItems_sound",
+        "Leptos.View.buildAttr_cells",
+        "Leptos.View.rebuildAttr_cells",
+        "Leptos.View.classTokens_join",
+        "Leptos.View.styleDecls_styleText",
+        "Leptos.View.styleDecls_ok",
+        "Leptos.View.setCssProperty_attrs",
+        "Leptos.View.removeCssProperty_attrs",
+        "Leptos.View.rebuild_core",
         "Leptos.View.AttrsFresh_kv",
         "Leptos.View.AttrsRebuild_kv",
         "Leptos.View.Rep.serSim",
@@ -84,8 +99,17 @@ CFG = {
                 "every structural combinator (text, (), elements incl. void, tuples, Option, Either/EitherOfN, Vec, AnyView) with static "
                 "string attributes, each key once (decidable predicates View.inFragment / Ty.inStage1; exact serialisation) = stages 1 and 3 "
                 "of DESIGN C03, and stage 2a (C03_*_attrvalues, View.inFragment2): String / Option<String> / bool attribute values and one "
-                "whole-value class (String or Option<String>) and style string per element, every key once, attributes compared as a map. NOT "
-                "PROVED: stage 2b (item-wise class:name=bool / style:(name,value) items, several writers of class or style on one element) "
+                "whole-value class (String or Option<String>) and style string per element, every key once, attributes compared as a map; "
+                "and stage 2b (C03_*_items, View.inFragment3 / View.pairItems): item-wise class:name=bool toggles and style:(name,value) / "
+                "(name,Option<value>) properties next to named attributes and whole-value class / style strings, any number per element, "
+                "incl. renames, blank values and optional properties, provided the footprints of the items of one element (named key, whole "
+                "class, class token, whole style, normalised style property) are pairwise disjoint in the old value, in the new value and "
+                "across the two on retained elements; elements compared on cells = the oracle's normal form (named attributes as a map, class "
+                "as a token set, style as a declaration map), resting on proved string round trips for classList add/remove "
+                "(classTokens_join) and style setProperty/removeProperty (styleDecls_styleText, styleDecls_ok). Option / Either / AnyView "
+                "alternatives must be nodeful (Ty.wf; F-C03-6 nodeless-old-branch is the counterexample otherwise, kernel witness "
+                "C03_nodeless_old_branch_witness). NOT PROVED: overlapping footprints (= the remaining finding classes below), toggle "
+                "names that are not one token, style names / values containing ';' "
                 "and stage 4 (keyed, not in the Lean View type). The full "
                 "statement over every attribute shape (C03_rebuild_eq_fresh_stmt) is FALSE of the code: kernel-checked refutation "
                 "C03_rebuild_eq_fresh_stmt_false plus one witness per remaining finding class (F-C03-1 class-overwrite, F-C03-2 style-overwrite, "
